@@ -92,6 +92,7 @@ static void* receiver_fn(void* a) {
   uint64_t last[64];
   memset(last, 0, sizeof(last));
   const long total = per_sender * nsend;
+  if ((vp_rand(&s->rng) & 3) == 0) fb_interrupted_read(s);
   for (;;) {
     // multi channel: receivers share the work; stop when everything has been claimed
     const long claimed = atomic_fetch_add(&recv_invoked, 1) + 1;
@@ -158,6 +159,7 @@ static long rounds;
 static void* sig_waiter(void* a) {
   fb_slot_t* s = (fb_slot_t*)a;
   long i;
+  if ((vp_rand(&s->rng) & 1) == 0) fb_interrupted_read(s);
   for (i = 0; i < rounds; ++i) {
     FB_BLOCKING(s, "C11 fiber_signal_wait", fiber_signal_wait(&ping));
     const long w = atomic_fetch_add(&waits_returned, 1) + 1;
@@ -194,6 +196,7 @@ static void* ms_waiter(void* a) {
   fb_slot_t* s = (fb_slot_t*)a;
   const long quota = s->c;
   long i;
+  if ((vp_rand(&s->rng) & 3) == 0) fb_interrupted_read(s);
   for (i = 0; i < quota; ++i) {
     const uint64_t sw = vp_self_switches();
     FB_BLOCKING(s, "C20 fiber_multi_signal_wait", fiber_multi_signal_wait(&ms));
@@ -296,10 +299,28 @@ static void* root(void* x) {
                                ms_mode ? "storm" : "exact ping-pong", W, q, R, ret1, atomic_load(&ms_raises_begun) - ret1);
     } else {
       kind = !strcmp(sub, "bounded") ? 0 : !strcmp(sub, "unbounded") ? 1 : !strcmp(sub, "sp") ? 2 : 3;
+      // multi channel, two trials in three: a burst of short lives (capacity 2, many senders with 1..3 messages each, a few receivers).
+      // Senders that finish early leave the others depending on exactly the wake-up their peer's operation owes them; a wake-up given
+      // to the wrong kind of waiter shows as a stranded sender on an empty channel.
+      const int burst = (kind == 3 && vp_rand(&rng) % 3) ? (int)vp_param("mini", 40) : 1;
+      int h;
+      for (h = 0; h < burst && !vp_violation_count(); ++h) {
+      if (h) {
+        fb_slots_reset();
+        n = 0;
+        vp_add(c_trials, 1);
+        vp_case();
+      }
       cap_log = 1 + (int)(vp_rand(&rng) % 4);
       nsend = kind == 2 ? 1 : 1 + (int)(vp_rand(&rng) % 16);
       nrecv = kind == 3 ? 1 + (int)(vp_rand(&rng) % 6) : 1;
       per_sender = 50 + (long)(vp_rand(&rng) % (unsigned)vp_param("msgs", 400));
+      if (burst > 1) {
+        cap_log = 1;
+        nsend = 3 + (int)(vp_rand(&rng) % 30);
+        nrecv = 2 + (int)(vp_rand(&rng) % 7);
+        per_sender = 1 + (long)(vp_rand(&rng) % 3);
+      }
       use_signal = (kind == 3) ? 0 : (kind == 0 ? (int)(vp_rand(&rng) % 4 != 0) : 1);  // a NULL signal makes the unbounded receivers spin without yielding (documented)
       atomic_store(&sent_returned, 0);
       atomic_store(&recv_invoked, 0);
@@ -327,8 +348,9 @@ static void* root(void* x) {
       vp_count("lib_signal_spin_count", (long)(st1.signal_spin_count - st0.signal_spin_count));
       vp_sig(vp_mix(((uint64_t)kind << 24) | ((uint64_t)nsend << 16) | ((uint64_t)nrecv << 8) | (uint64_t)cap_log | ((uint64_t)use_signal << 30),
                     (uint64_t)vp_get(c_recv_slept) * 131 + (uint64_t)vp_get(c_full_seen)));
-      if (trial < 2) vp_sample("%s channel trial %d: %d senders x %ld messages, %d receiver(s), capacity %d, %s, %d kernel threads", kind_names[kind], trial, nsend, per_sender, nrecv,
+      if (trial < 2 && h < 2) vp_sample("%s channel trial %d: %d senders x %ld messages, %d receiver(s), capacity %d, %s, %d kernel threads", kind_names[kind], trial, nsend, per_sender, nrecv,
                                kind == 0 || kind == 3 ? 1 << cap_log : 0, use_signal ? "receiver sleeps on a signal" : "no signal (spinning/yielding)", vp_cfg.threads);
+      }
       // channels are intentionally not destroyed: message memory is still linked as queue nodes
     }
     vp_add(c_trials, 1);
